@@ -25,6 +25,8 @@ pub mod winalloc {
     use std::cell::Cell;
     use std::sync::atomic::{AtomicUsize, Ordering};
     thread_local! { pub static ARMED: Cell<bool> = const { Cell::new(false) }; }
+    // like ARMED, for releases: the armed thread parks at every `dealloc` too (scope exits free memory)
+    thread_local! { pub static ARMED_FREE: Cell<bool> = const { Cell::new(false) }; }
     pub static REQ: AtomicUsize = AtomicUsize::new(0);
     pub static DONE: AtomicUsize = AtomicUsize::new(0);
     pub struct A;
@@ -46,6 +48,12 @@ pub mod winalloc {
             System.alloc_zeroed(l)
         }
         unsafe fn dealloc(&self, p: *mut u8, l: Layout) {
+            if ARMED_FREE.try_with(|a| a.get()).unwrap_or(false) {
+                let want = REQ.fetch_add(1, Ordering::SeqCst) + 1;
+                while DONE.load(Ordering::SeqCst) < want {
+                    std::thread::yield_now();
+                }
+            }
             System.dealloc(p, l)
         }
         unsafe fn realloc(&self, p: *mut u8, l: Layout, n: usize) -> *mut u8 {
